@@ -13,3 +13,29 @@ Theorem C05_ufo_kern_glyph_pair_first : forall g1s g2s k a b v,
   kassoc (a, b) k = Some v -> ufo_kern g1s g2s k a b = v.
 Proof. exact ufo_kern_glyph_glyph. Qed.
 Print Assumptions C05_ufo_kern_glyph_pair_first.
+
+(* the writer's ordering of rules (KerningPair.__lt__) puts glyph-glyph before glyph-class before
+   class-glyph before class-class, whatever the input order *)
+Theorem C05_rules_sorted_by_specificity : forall l, kind_sorted (sort_rules l).
+Proof. exact sort_rules_kind_sorted. Qed.
+Print Assumptions C05_rules_sorted_by_specificity.
+
+(* in such a lookup (specific pairs first-definition-wins, then the class subtable) a pair gets the
+   value of the first rule that covers it *)
+Theorem C05_first_covering_rule_decides : forall rules a b,
+  kind_sorted rules ->
+  lookup_value rules a b = match find (fun r => covers r a b) rules with Some r => kv r | None => qc0 end.
+Proof. exact lookup_first_cover. Qed.
+Print Assumptions C05_first_covering_rule_decides.
+
+(* hence UFO precedence: the most specific covering rule decides, 0 when none covers -- for every
+   rule list in which equally specific covering rules agree (one entry per key, a glyph in at most
+   one group per side) *)
+Theorem C05_most_specific_rule_wins : forall rules a b,
+  (forall r s, In r rules -> In s rules -> covers r a b = true -> covers s a b = true -> kind r = kind s -> kv r = kv s) ->
+  (forall r, In r rules -> covers r a b = true ->
+     (forall s, In s rules -> covers s a b = true -> (kind r <= kind s)%nat) ->
+     lookup_value (sort_rules rules) a b = kv r) /\
+  ((forall r, In r rules -> covers r a b = false) -> lookup_value (sort_rules rules) a b = qc0).
+Proof. exact lookup_most_specific_rule_wins. Qed.
+Print Assumptions C05_most_specific_rule_wins.
